@@ -478,7 +478,7 @@ ADV = [10000, 50000, 100000, 150000, 200000, 250000, 500000, 1000000, 1800000, 2
        60_000000, 300_000000, 1800_000000, 3600_000000, 7200_000000]
 
 
-STRINGS = ["", "a", "x<y&z>", "  sp  ", "é漢", "None", "True", "1", "a'b\"c", "]]>", "line1\nline2", "tab\there", "-7"]
+STRINGS = ["", "a", "x<y&z>", "  sp  ", "é漢", "None", "True", "1", "a'b\"c", "]]>", "line1\nline2", "tab\there", "-7", "cr\rlf\r\nend"]
 TYPES = ["i4", "i4", "boolean", "string"]
 
 
@@ -640,6 +640,8 @@ CORPUS: List[Dict[str, Any]] = [
     {"vars": [[True, 0, 0]], "ops": [["sub", "<http://h/a>", None], ["set", 0, 5], ["done", 0], ["adv", 1000000]]},
     # F15c: SUBSCRIBE with an empty SID header and a CALLBACK was answered 200 + new SID without registering anybody
     {"vars": [[True, 0, 0]], "ops": [["renew", "e", "<http://h/a>", "Second-5"], ["set", 0, 1], ["unsub", "e"]]},
+    # F15e: a carriage return in a string value reached the subscriber as a line feed
+    {"services": [[[True, 0, None, "string"]]], "ops": [["sub", "<http://h/a>", None], ["set", 0, "a\rb"]]},
     # F15d: two assignments to a moderated variable without yielding to the loop gave two events at the same instant
     {"vars": [[True, 2000000, None]], "ops": [["sub", "<http://h/a>", None], ["burst", [[0, 1], [0, 2], [0, 3]]], ["adv", 3000000]]},
 ]
